@@ -15,11 +15,15 @@ from ..core import Ctx, Violation, explore
 
 ID = "C13"
 LEVEL = "exploration"
-RULE = ("case = output appearance times x run() time x notification time x optional external kill x per-task "
+RULE = ("case = output appearance times (one or two producers, same/earlier stage, either order) x run() time x notification time x optional external kill x per-task "
         "(duration, exit reason) x repeatRetries {0,1,3} x repeat-interval x kill-after-producers-done-delay x "
         "check-producer-output x repeating/non-repeating producer. Non-trivial = the notification lands inside a task "
         "or within one poll (5 s) of new output, or a task fails after the notification; distinct = distinct cases.")
 ASSUMPTIONS = [
+    "sub `wired`: real ComponentState objects (stageIn subscription, RepeatingEngine) on the deterministic kernel without "
+    "a Controller; 2-3 plain subjects are finished by the harness at generated virtual moments (any order, any final "
+    "state, optionally one already dead at stage-in); all observer executions succeed; non-trivial = >= 2 subscribed "
+    "subjects whose finish times are further apart than one repeat interval",
     "the job is a duck-typed model object (answers about producer output come from the generated output times, using "
     "the same rule as Job.producersHaveOutputSinceDate); RepeatingEngine and monitor.CreateMonitor are the real code",
     "the monitor thread runs inline on a virtual clock; time.sleep / Task.wait advance it and fire external events and "
@@ -43,6 +47,13 @@ def cases(draw):
     outputs = sorted(draw(st.lists(grid, min_size=n_out, max_size=n_out)))
     run_at = draw(st.integers(0, 60).map(lambda k: k / 2.0))
     last = outputs[-1] if outputs else 0.0
+    p2 = None
+    if has_producer and draw(st.integers(0, 2)) == 0:
+        n2 = draw(st.integers(0, 3))
+        p2 = {"outputs": sorted(draw(st.lists(grid, min_size=n2, max_size=n2))),
+              "stage": draw(st.sampled_from([0, 0, 0, -1])), "first": draw(st.booleans()),
+              "repeats": draw(st.booleans())}
+        last = max([last] + p2["outputs"])
     mode = draw(st.sampled_from(["notify", "notify", "notify", "notify+kill", "kill"]))
     notify_at = None
     kill_at = None
@@ -60,7 +71,7 @@ def cases(draw):
         tasks.append([dur, reason])
     interval = draw(st.sampled_from([5, 10, 30]))
     return {
-        "has_producer": has_producer,
+        "has_producer": has_producer, "p2": p2,
         "producer_repeats": draw(st.booleans()),
         "outputs": outputs, "run_at": run_at, "notify_at": notify_at, "kill_at": kill_at, "tasks": tasks,
         "retries": draw(st.sampled_from([0, 1, 3, None])),
@@ -78,8 +89,9 @@ def check(case, ctx: Ctx):
     finally:
         shutil.rmtree(wd, ignore_errors=True)
     eng = sim.engine
-    O = sim.outputs
+    O = sorted(sim.outputs + sim.outputs2)
     L = O[-1] if O else None
+    p2 = case.get("p2")
     Tn = sim.notified_at
     Kx = sim.killed_ext_at
     retries = case["retries"] if case["retries"] is not None else 3
@@ -89,10 +101,16 @@ def check(case, ctx: Ctx):
         case, launches, sim.task_ends, sim.kernel_log[-12:], Tn, Kx)
 
     # (a) never executes before there is producer output it can consume
+    gates = []
     if case["has_producer"]:
+        # every producer of the observer's own stage must have produced something (Engine.canConsume's contract)
+        gates = [("Producer", sim.outputs)] + ([("Producer2", sim.outputs2)] if p2 and p2["stage"] == 0 else [])
         for n, s in launches:
-            if not any(o <= s for o in O):
-                raise Violation("executed-before-any-producer-output", "launch %d at %.1f; %s" % (n, s, desc))
+            for who, outs in gates:
+                if not any(o <= s for o in outs):
+                    raise Violation("executed-before-any-producer-output" if len(gates) == 1 else
+                                    "executed-before-output-of-every-same-stage-producer",
+                                    "launch %d at %.1f, %s has no output yet; %s" % (n, s, who, desc))
     if sim.aborted:
         if Tn is not None or Kx is not None:
             raise Violation("does-not-stop-after-producers-finished",
@@ -108,7 +126,9 @@ def check(case, ctx: Ctx):
     ext_killed = Kx is not None and Kx <= died_at
     short_delay = case["kill_after"] is not None and case["kill_after"] < case["interval"] + 30
     # (b) the final output is observed
-    if (case["has_producer"] and O and Tn is not None and not ext_killed and L <= died_at):
+    # ("unless ... it was never able to consume": some same-stage producer never produced anything)
+    able = case["has_producer"] and all(outs for _, outs in gates)
+    if (able and O and Tn is not None and not ext_killed and L <= died_at):
         if not any(s >= L for n, s in launches):
             if short_delay:
                 ctx.rec.label("final-observation-waived:short-kill-delay")
@@ -147,6 +167,8 @@ def check(case, ctx: Ctx):
     if failed_after:
         labels.append("task-fails-after-notify")
     labels.append("ext-kill" if ext_killed else "self-stop")
+    if p2:
+        labels.append("two-producers:%s" % ("same-stage" if p2["stage"] == 0 else "other-stage"))
     labels.append("launches=%s" % ("0" if not launches else "1" if len(launches) == 1 else "2+"))
     ctx.rec.label(*labels)
     if in_task or near_output or failed_after:
@@ -155,9 +177,151 @@ def check(case, ctx: Ctx):
                                    "exit": eng.exitReason()})
 
 
+# ----------------------------------------------------------------------------------------------------------
+# sub `wired`: the real ComponentState wiring (stageIn subscription to the producers' notifyFinished) on the
+# deterministic kernel: 2-3 plain subjects that finish at different (virtual) moments, in any order and with any final
+# state, observed by one repeating component whose executions all succeed.
+@st.composite
+def wired_cases(draw):
+    k = draw(st.sampled_from([2, 2, 3]))
+    gaps = st.sampled_from([0, 0, 1, 4, 6, 11, 23, 47])
+    subjects = []
+    for i in range(k):
+        subjects.append({"finish_at": 0, "state": draw(st.sampled_from(["finished", "finished", "finished", "failed",
+                                                                        "shutdown"])),
+                         "final_output": draw(st.integers(0, 3)) != 0})
+    order = list(draw(st.permutations(list(range(k)))))
+    t = draw(st.sampled_from([0, 3, 8, 16]))
+    for n, i in enumerate(order):
+        t += draw(gaps) if n else 0
+        subjects[i]["finish_at"] = t
+    return {"subjects": subjects, "interval": draw(st.sampled_from([1, 5, 10])),
+            "retries": draw(st.sampled_from([0, 1, 3])),
+            "dead_before_stagein": draw(st.integers(0, 5)) == 0,
+            "sched": draw(st.sampled_from(["fifo", "fifo", "lifo", "rand:2:%d" % draw(st.integers(0, 99))]))}
+
+
+def check_wired(case, ctx: Ctx):
+    import datetime as _dt
+    import os
+    import networkx
+    import experiment.model.codes as codes
+    import experiment.runtime.backends as backends
+    import experiment.runtime.engine as engine
+    import experiment.runtime.workflow as workflow
+    from ..gen import pkg
+    from ..rt import driver as rtdriver, kernel as K
+    from .c02 import PatternChooser
+    KERNEL = K.KERNEL
+    subs = case["subjects"]
+    names = ["Sub%d" % i for i in range(len(subs))]
+    loc = ctx.mkdtemp()
+    K.new_case()
+    launches = []
+    saved = dict(backends.backendGeneratorMap)
+    comps = {}
+    try:
+        fl = {"components": [{"name": n, "stage": 0, "command": {"executable": "echo", "arguments": "s"}}
+                             for n in names] + [
+            {"name": "Obs", "stage": 0,
+             "command": {"executable": "echo", "arguments": " ".join("%s:ref" % n for n in names)},
+             "references": ["%s:ref" % n for n in names],
+             "workflowAttributes": {"repeatInterval": case["interval"], "repeatRetries": case["retries"]}}]}
+        exp = pkg.experiment_from_flowir(fl, loc)
+        now = lambda: (KERNEL.clock - K.EPOCH).total_seconds()
+        backend = rtdriver.ScriptedBackend({}, lambda ref, job, n, reason: launches.append((ref, now())))
+        for k_ in list(backends.backendGeneratorMap):
+            backends.backendGeneratorMap[k_] = backend
+        for job_name in networkx.topological_sort(exp.graph):
+            data = exp.graph.nodes[job_name]
+            spec = data["componentSpecification"]
+            job = exp._stages[data["stageIndex"]].jobWithName(spec.identification.componentName)
+            comps[job_name] = workflow.ComponentState(job, exp.experimentGraph, create_engine=True)
+        obs = comps["stage0.Obs"]
+        chooser = PatternChooser(case["sched"])
+        STATES = {"finished": codes.FINISHED_STATE, "failed": codes.FAILED_STATE, "shutdown": codes.SHUTDOWN_STATE}
+
+        def pump(until_s):
+            end = K.EPOCH + _dt.timedelta(seconds=until_s)
+            for _ in range(400):
+                if KERNEL.clock >= end:
+                    break
+                KERNEL.drain(max_items=4000, horizon_s=max((end - KERNEL.clock).total_seconds(), 0.0), chooser=chooser)
+                nd = KERNEL.next_due()
+                if nd is None or nd > end:
+                    KERNEL.advance_to(end)
+            KERNEL.drain(max_items=4000, horizon_s=0.0, chooser=chooser)
+
+        def write(i, text):
+            with open(os.path.join(comps["stage0." + names[i]].specification.workingDirectory.path, "out.txt"), "a") as f:
+                f.write(text)
+
+        for n in names:
+            comps["stage0." + n].stageIn()
+        early = []
+        if case["dead_before_stagein"]:
+            # one subject is already finished when the observer stages in: it is not subscribed to at all
+            first = min(range(len(subs)), key=lambda i: subs[i]["finish_at"])
+            write(first, "only\n")
+            comps["stage0." + names[first]].finish(STATES[subs[first]["state"]])
+            pump(now() + 2.0)
+            early = [first]
+        obs.stageIn()
+        for i in range(len(subs)):
+            if i not in early:
+                write(i, "partial\n")
+        obs.run()
+        t0 = now()
+        alive_before_last = None
+        finished_at = {}
+        todo = sorted((i for i in range(len(subs)) if i not in early), key=lambda i: (subs[i]["finish_at"], i))
+        for n, i in enumerate(todo):
+            pump(t0 + subs[i]["finish_at"])
+            if n == len(todo) - 1:
+                alive_before_last = obs.engine.isAlive()
+            if subs[i]["final_output"]:
+                write(i, "final\n")
+            finished_at[i] = now()
+            comps["stage0." + names[i]].finish(STATES[subs[i]["state"]])
+        last = max(finished_at.values())
+        pump(last + 3 * (case["interval"] + 5) + 60.0)
+        obs_launches = [t for ref, t in launches if ref == "stage0.Obs"]
+        desc = "case=%s finished_at=%s observer launches=%s engine alive=%s state=%s errors=%s" % (
+            case, finished_at, obs_launches, obs.engine.isAlive(), obs.state, KERNEL.errors[:3])
+        if len(todo) > 1 and not alive_before_last:
+            raise Violation("observer-stopped-while-a-producer-was-still-running",
+                            "the observer's engine was dead just before its last producer finished; " + desc)
+        if not any(t >= last for t in obs_launches):
+            raise Violation("stopped-without-observing-final-output:wired",
+                            "no execution started after the last producer finished (%.1f); %s" % (last, desc))
+        if obs.engine.isAlive():
+            raise Violation("does-not-stop-after-producers-finished:wired", desc)
+        after = [t for t in obs_launches if t >= last]
+        if len(after) > 2:
+            raise Violation("executes-again-after-successful-final-execution:wired",
+                            "%d executions started after the last producer finished; %s" % (len(after), desc))
+        spread = last - min(finished_at.values())
+        ctx.rec.label("wired:subjects=%d" % len(subs), "wired:spread>interval" if spread > case["interval"] else
+                      "wired:spread<=interval", "wired:early-dead" if early else "wired:all-subscribed")
+        if len(todo) > 1 and spread > case["interval"]:
+            ctx.rec.nt(["c13w", case], {"case": case, "finished_at": finished_at, "observer_launches": obs_launches,
+                                        "observer_state": obs.state}, group="wired")
+    finally:
+        backends.backendGeneratorMap.clear()
+        backends.backendGeneratorMap.update(saved)
+        for c in comps.values():
+            try:
+                if c.repeatingDisposable is not None:
+                    c.repeatingDisposable.dispose()
+            except Exception:
+                pass
+        shutil.rmtree(loc, ignore_errors=True)
+
+
 def shard(ctx: Ctx):
     explore(ctx, "history", cases(), check, ctx.n(8000, 600000), batch=500)
+    explore(ctx, "wired", wired_cases(), check_wired, ctx.n(240, 12000), batch=20)
 
 
 def replay(sub, case, ctx: Ctx):
-    check(case, ctx)
+    {"history": check, "wired": check_wired}[sub or "history"](case, ctx)
